@@ -31,9 +31,14 @@ Definition XF_out : flag := 411.
 Definition XF_sw : flag := 412.   (* prevVersion != newVersion *)
 Definition XF_gi : flag := 413.   (* inBuffSize < needed, when a size is recorded *)
 Definition XF_go : flag := 414.   (* outBuffSize < needed, when a size is recorded *)
+(* round 3: the other two things a DCtx does with legacy and modern frames *)
+Definition X_tmp : lbl := 406.    (* the ZSTDv0x_DCtx ZSTD_decompressLegacy creates and frees inside one single-call decoding *)
+Definition X_buf : lbl := 407.    (* dctx->inBuff (+ outBuff, one block): streaming of a MODERN frame on the same DCtx *)
+Definition XF_buf : flag := 415.  (* inBuffSize / outBuffSize describe X_buf *)
 
 Definition n_lcreate : N := 70.  Definition n_lfree : N := 71.    Definition n_lstream : N := 72.
 Definition n_linit : N := 73.    Definition n_zbfree : N := 74.   Definition n_zbcreate : N := 75.
+Definition n_loneshot : N := 76. Definition n_lmodern : N := 77.
 
 Section Legacy.
 Variable rp : repair.
@@ -106,17 +111,44 @@ Definition ldctx_free : prog :=
     IfNull X_dctx (Return true) Skip ;;
     Use X_dctx ;;
     zb_free ;;
+    Free X_buf None ;; SetNull X_buf ;; SetFlag XF_buf false ;;
     Free X_dctx None ;;
     SetNull X_leg ;;                  (* the struct holding the field is gone *)
     Return true).
 
-Inductive lop : Type := LCreate | LFree | LStream (isz osz : N).
+(* round 3.  ZSTD_decompressDCtx / ZSTD_decompress_usingDict of a legacy frame (zstd_legacy.h ZSTD_decompressLegacy, versions
+   0.4 - 0.7): a decoder context of that version is created, used and released inside the call; the DCtx's legacy STREAM
+   context is not involved *)
+Definition loneshot : prog :=
+  Call n_loneshot (
+    Use X_dctx ;;
+    Alloc X_tmp false sz_zd ;; IfNull X_tmp (Return false) Skip ;;
+    Use X_tmp ;; Free X_tmp None ;; SetNull X_tmp ;;
+    Return true).
+
+(* a MODERN frame streamed through the same DCtx (zstd_decompress.c zdss_loadHeader): the stream buffer is released BEFORE the
+   new one is requested, the recorded sizes are zeroed first.  [n] decides the data-dependent test "too small or oversized for
+   too long": 0 = the environment, 1 = no, anything else = yes (the tie passes 1 + the number of allocation attempts seen) *)
+Definition lbuf_resize (sz : N) : prog :=
+  Free X_buf None ;; SetFlag XF_buf false ;; SetNull X_buf ;;
+  Alloc X_buf false sz ;; IfNull X_buf (Return false) Skip ;;
+  SetFlag XF_buf true.
+Definition lmodern (n sz : N) : prog :=
+  Call n_lmodern (
+    Use X_dctx ;;
+    IfFlag XF_buf (match n with 0 => Choice 33 (lbuf_resize sz) Skip | 1 => Skip | _ => lbuf_resize sz end) (lbuf_resize sz) ;;
+    Use X_buf ;;
+    Return true).
+
+Inductive lop : Type := LCreate | LFree | LStream (isz osz : N) | LOneShot | LModern (n sz : N).
 
 Definition lop_prog (o : lop) : prog :=
   match o with
   | LCreate => ldctx_create
   | LFree => ldctx_free
   | LStream i o => lstream i o
+  | LOneShot => loneshot
+  | LModern n sz => lmodern n sz
   end.
 Definition lapi (o : lop) : prog := Forget ;; Call 0 (lop_prog o).
 
@@ -125,7 +157,7 @@ Definition lclient (o : lop) : prog :=
   match o with
   | LCreate => IfNull X_dctx (lapi o) Skip
   | LFree => lapi o ;; SetNull X_dctx
-  | LStream _ _ => IfNull X_dctx Skip (lapi o)
+  | LStream _ _ | LOneShot | LModern _ _ => IfNull X_dctx Skip (lapi o)
   end.
 Fixpoint lsession (ops : list lop) : prog :=
   match ops with
@@ -133,13 +165,15 @@ Fixpoint lsession (ops : list lop) : prog :=
   | o :: r => lclient o ;; Forget ;; lsession r
   end.
 Definition lteardown : prog := lclient LFree.
-Definition lreps : list lop := [LCreate; LFree; LStream 0 0].
+Definition lreps : list lop := [LCreate; LFree; LStream 0 0; LOneShot; LModern 0 0; LModern 1 0; LModern 2 0].
 
 (* the scenario interpreter of the tie: the API calls a run of harness/c13_fault.c made, as (code, parameters) *)
 Definition lop_of_code (code : N) (ps : list N) : lop :=
   match code with
   | 1 => LCreate
   | 2 => LFree
+  | 4 => LModern (nth 0 ps 0) (nth 1 ps 0)
+  | 5 => LOneShot
   | _ => LStream (nth 0 ps 0) (nth 1 ps 0)
   end.
 Fixpoint lops_prog (ops : list lop) : prog :=
